@@ -34,7 +34,7 @@ func run(cfg lib.Cfg) error {
 	// lib.NewRNG(seed) streams of neighbouring seeds are shifts of one another (they
 	// re-synchronise after a few cases); Fork() starts from a hashed state instead
 	r := lib.NewRNG(cfg.Seed).Fork()
-	n := 320
+	n := 290
 	if cfg.Thorough() {
 		n = 4000
 	}
@@ -57,6 +57,16 @@ func run(cfg lib.Cfg) error {
 		for _, k := range rows.RunCase(c) {
 			out.Add(k)
 		}
+	}
+	sh, snotes, err := rows.SharedCases(r.Fork(), 4, true)
+	if err != nil {
+		return err
+	}
+	for _, k := range sh {
+		out.Add(k)
+	}
+	for k, v := range snotes {
+		out.Notes[k] = v
 	}
 	rows.DistNotes(out)
 	// quick: one shard per core of the 16; thorough: 60 cases per shard
